@@ -260,6 +260,15 @@ public:
   {
     std::lock_guard<std::mutex> lock(_mutex);
 
+    // The TLS settings are read once, by start(). Accepting them on a server
+    // that is already started would be silently ignored: the listener would
+    // keep serving clear text although TLS was requested.
+    if (_transport)
+    {
+      throw std::logic_error("HttpServer::enableTls: the server is already started; "
+                             "call enableTls() before start() (or stop() first)");
+    }
+
     // Validate cert/key files exist
     if (config.certFile.empty() || config.keyFile.empty())
     {
